@@ -182,12 +182,9 @@ int check_for_sequences(struct msa* msa)
         if(!msa){
                 ERROR_MSG("No sequences were found in the input files or standard input.");
         }
-        if(msa->numseq < 2){
-                if(msa->numseq == 0){
-                        ERROR_MSG("No sequences were found in the input files or standard input.");
-                }else if (msa->numseq == 1){
-                        ERROR_MSG("Only 1 sequence was found in the input files or standard input");
-                }
+        /* a single sequence is fine here: further inputs may be merged in; kalign_run insists on at least two */
+        if(msa->numseq == 0){
+                ERROR_MSG("No sequences were found in the input files or standard input.");
         }
         return OK;
 ERROR:
